@@ -124,6 +124,7 @@ func c10World(t *testing.T, r *simcore.Run) any {
 	var prevResp []byte                 // a genuine response to an earlier request (for replays)
 	var tamper func(genuine []byte) ([]byte, string, bool)
 	var injected *simnet.Datagram
+	curKind := ""
 	var trailing []byte
 	trailingOK := false
 	var lastClosedRecv *simnet.Datagram
@@ -161,6 +162,7 @@ func c10World(t *testing.T, r *simcore.Run) any {
 			return nil, false
 		}
 		injected = net.NewDatagram(d.Src, d.Dst, wrapped, "tampered response")
+		r.Fault("response:" + curKind)
 		return []simnet.Route{{D: injected, Delay: 60 * time.Microsecond}, {D: d, Delay: 200 * time.Microsecond}}, true
 	}
 
@@ -260,6 +262,7 @@ func c10World(t *testing.T, r *simcore.Run) any {
 				}
 				d := net.NewDatagram(gd.Src, gd.Dst, wrapped, "tampered request")
 				net.Inject(d, 50*time.Microsecond)
+				r.Fault("request:" + c.kind)
 				if r.Sleep(fmt.Sprintf("settle:%d", ci), tr.clientNode(), 3*time.Millisecond).Killed {
 					return
 				}
@@ -291,6 +294,7 @@ func c10World(t *testing.T, r *simcore.Run) any {
 			desc := ""
 			must := true
 			skip := false
+			curKind = c.kind
 			tamper = func(g []byte) ([]byte, string, bool) {
 				switch c.kind {
 				case "bit":
